@@ -24,6 +24,16 @@ PROPS = {
     note='bounded: tiny domains, alphabets of 2-4 values, history depth 3/4; harness builder and walker trusted',
     design_ref='DESIGN.md 4/C01',
  ),
+ 'C04': dict(
+    level=EX, engines=[('rel', 'eng_c04')],
+    technique='bounded exhaustive enumeration of all operand pairs x all forest-assignment patterns on the real library, compared with bitwise truth tables',
+    rule='every ordered pair of boolean functions of the shape (whole universe, or U x B and B x U with the structured family B where stated) x {UNION, INTERSECTION, DIFFERENCE} x every forest-assignment pattern (rules of a, b, c and which of them are the same forest object; 22 patterns for sets, 57 for relations) + result-edge-aliases-operand variants; COMPLEMENT over U x rule pairs; CROSS over U x U into every relation rule. non-trivial = result is neither an operand nor a constant; distinct by (op, pattern, a, b)',
+    bounds={'quick': 'sets S1-S5 all pairs, S6 via B; relations S1 all pairs, S2 via B, S3 via B1; cross S1-S4',
+            'thorough': 'adds S6 and relation S2 all pairs, S3 via B, S7/S8 via B, reverse-order and cache-cleared-before-each-call sweeps'},
+    text='Exhaustive over the stated operand universes and forest-assignment patterns, inside warm library instances; result must be the identical canonical edge of the pointwise table; operands re-read afterwards.',
+    note='bounded: 1-4 variables of size 2-3; beyond 2^16 pairs only U x B / B x U; default policies',
+    design_ref='DESIGN.md 4/C04',
+ ),
 }
 
 NOT_YET = {}
